@@ -223,6 +223,9 @@ impl Loader for Elf {
 
         for ph in elf.program_headers {
             if ph.p_type == goblin::elf::program_header::PT_LOAD {
+                if ph.p_memsz < ph.p_filesz {
+                    return Err(Error::FalconInternal("Malformed Elf".to_string()));
+                }
                 let file_range = (ph.p_offset as usize)..((ph.p_offset + ph.p_filesz) as usize);
                 let mut bytes = self
                     .bytes
